@@ -1,4 +1,5 @@
 """C05 — Schema `check` verdict is exact on the implemented type-system rules (structural clauses)."""
+import re
 import harness
 from facts import (norm, call_name, short, subnodes, lit_value, matches_on, arm_variants, field_reads, peel_ty, str_lits_in, AnchorMissing)
 from prov import Prov, has_field, has_call
@@ -84,6 +85,17 @@ POSITIONS = {"SchemaDefinition": "check_schema", "ScalarTypeDefinition": "check_
 _POS = {}
 
 
+def _node_param(f):
+    """index of the parameter that carries the node a checker function is about: the first one, or the one after the receiver
+    when the checker is a method of a context object; None if that parameter is not a reference"""
+    i = 0
+    if f.self_adt and f.sig_inputs and peel_ty(f.sig_inputs[0]).split("<")[0] == f.self_adt:
+        i = 1
+    if i < len(f.sig_inputs) and f.sig_inputs[i].startswith("&"):
+        return i
+    return None
+
+
 def _positions(P):
     if _POS.get("P") is P:
         return _POS
@@ -92,7 +104,7 @@ def _positions(P):
     fns = {}
     sc = [P.fns[p] for p in scope(P) if P.fns[p].crate == CHK and P.fns[p].kind in ("Fn", "AssocFn")]
     for adt, name in POSITIONS.items():
-        cands = [f for f in sc if f.sig_inputs and peel_ty(f.sig_inputs[0]) == TS + adt and f.sig_inputs[0].startswith("&")]
+        cands = [f for f in sc if _node_param(f) is not None and peel_ty(f.sig_inputs[_node_param(f)]) == TS + adt]
         if len(cands) > 1:
             roots = [c for c in cands if not any(c.path in P.callees_of(o)[0] for o in cands if o is not c)]
             cands = roots if len(roots) == 1 else cands
@@ -190,7 +202,7 @@ def _position_views(P, posn, c):
 def _r05a_sites(P, R):
     fns = [P.fns[p] for p in scope(P) if P.fns[p].crate == CHK and p != CK + "common::check_directives"]
     sites = directive_sites(P, fns)
-    R.floor("R05-a", "check_directives call sites (type system)", len(sites), 11)
+    view_count = {}
 
     def decide(key, f, elem, container, lits):
         want = INPUT_VALUE_CONTAINER[container] if container else TS_LOCATIONS[(elem, "directives")]
@@ -250,16 +262,33 @@ def _r05a_sites(P, R):
         except AnchorMissing as e:
             R.undecided("R05-a", key, "kind=anchor-missing: %s" % e)
             continue
+        # first through the position's own view (helpers attached, parameters bound to this position's arguments): exact even when
+        # all positions share one wrapper around check_directives; then the function-local sites of the region
+        cd = CK + "common::check_directives"
+        fi = position_inlined(P, posn)
+        if posn not in _PV or _PV.get("P") is not P:
+            if _PV.get("P") is not P:
+                _PV.clear()
+                _PV["P"] = P
+            _PV[posn] = Prov(fi)
+        vcalls = [x for x in fi.walk() if x.get("k") == "Call" and call_name(x) == cd and len(x["args"]) >= 3]
+        vatoms = [_PV[posn].atoms(x["args"][2]) for x in vcalls]
+        view_count[posn] = len(vcalls)
+        if any(has_field(a, TS + elem, "directives") for a in vatoms):
+            R.holds("R05-a", key, "directives at this position are validated", loc=fi.loc())
+            continue
         here = [s for s in sites if s[0].path in reg]
         hit = [s for s in here if (TS + elem, "directives") in s[2]]
-        opaque = [s for s in here if not s[2]]
+        opaque = [s for s in here if not s[2]] + [a for a in vatoms if not any(x[0] == "field" and x[2] == "directives" for x in a)]
         if hit:
             R.holds("R05-a", key, "directives at this position are validated (in %s)" % short(hit[0][0].path), loc=hit[0][0].loc())
         elif opaque:
-            R.undecided("R05-a", key, "a check_directives call in %s takes its list from an unrecognised source" % short(opaque[0][0].path), loc=opaque[0][0].loc())
+            R.undecided("R05-a", key, "a check_directives call on the path from %s takes its list from an unrecognised source" % position_fn(P, posn).path, loc=position_fn(P, posn).loc())
         else:
             R.violated("R05-a", key, "directives on %s are never passed to check_directives on the path from %s (the checker of %s)"
                        % (elem, position_fn(P, posn).path, posn), loc=position_fn(P, posn).loc())
+    # floor on the validation sites: call paths seen from the positions (a shared wrapper counts once per position that uses it)
+    R.floor("R05-a", "check_directives call sites (type system)", max(len(sites), sum(view_count.values())), 11)
     valid_locs = {"QUERY", "MUTATION", "SUBSCRIPTION", "FIELD", "FRAGMENT_DEFINITION", "FRAGMENT_SPREAD", "INLINE_FRAGMENT", "VARIABLE_DEFINITION",
                   "SCHEMA", "SCALAR", "OBJECT", "FIELD_DEFINITION", "ARGUMENT_DEFINITION", "INTERFACE", "UNION", "ENUM", "ENUM_VALUE", "INPUT_OBJECT",
                   "INPUT_FIELD_DEFINITION"}
@@ -351,18 +380,47 @@ def _r05b_pred(P, R):
             R.check("R05-b", "predicate:" + fn_, truthy == accept, "%s = %s" % (fn_, sorted(accept)), "%s is true for %s" % (fn_, sorted(truthy)), loc=g.loc())
 
 
+def _feasible(P, fi, pv, idx):
+    """False if node idx lies in an arm (pattern guard or body) of a match over a field-less enum whose scrutinee is, in this view,
+    one known variant that the arm does not name — e.g. a shared helper called with a literal mode flag"""
+    acc = fi.nodes()
+    child, p = idx, acc[idx][1]
+    while p >= 0:
+        n = acc[p][0]
+        if n.get("k") == "Arm":
+            pp = acc[p][1]
+            while pp >= 0 and acc[pp][0].get("k") != "Match":
+                pp = acc[pp][1]
+            m = acc[pp][0] if pp >= 0 else None
+            adt = P.adts.get(peel_ty(m["scrut"].get("t")).split("<")[0]) if m is not None else None
+            if adt is not None and adt.kind == "Enum" and all(not v["fields"] for v in adt.variants):
+                sa = pv.data_atoms(m["scrut"])
+                known = {x[1].split("::")[-1] for x in sa if x[0] == "def" and x[1].startswith(adt.path + "::")}
+                opaque = [x for x in sa if x[0] in ("param", "call", "field")]
+                v, catch = arm_variants({"arms": [n]})
+                if len(known) == 1 and not opaque and v and not catch and not (known & v):
+                    return False
+        child, p = p, acc[p][1]
+    return True
+
+
 def _r05b_direction(P, R):
-    # directions: output positions use is_output_type, input positions is_input_type (anywhere in the position's region)
+    # directions: output positions use is_output_type, input positions is_input_type (on the paths this position can take)
     for posn, want_pred, diag in OUTPUT_POS:
         name = POSITIONS[posn]
         try:
-            reg = region(P, posn)
+            fi = position_inlined(P, posn)
         except AnchorMissing as e:
             R.undecided("R05-b", "direction:" + name, "kind=anchor-missing: %s" % e)
             continue
         f = position_fn(P, posn)
-        preds = {c["method"] for g in reg for c in g.walk() if c.get("k") == "MethodCall" and c["method"] in ("is_input_type", "is_output_type")}
-        made = set(d for g in reg for d in diag_sites(g.walk()))
+        pv = Prov(fi)
+        preds, made = set(), set()
+        for i, (c, _p) in enumerate(fi.nodes()):
+            if c.get("k") == "MethodCall" and c["method"] in ("is_input_type", "is_output_type") and _feasible(P, fi, pv, i):
+                preds.add(c["method"])
+            elif diag_sites([c]) and _feasible(P, fi, pv, i):
+                made |= set(diag_sites([c]))
         if not preds:
             R.undecided("R05-b", "direction:" + name, "no is_input_type / is_output_type test on the path from %s" % f.path, loc=f.loc())
             continue
@@ -413,7 +471,7 @@ def r05c(P, R):
         R.floor("R05-c", "check_valid_implementation call in " + name, len(calls), 1)
         adt = TS + posn
         for c in calls:
-            own = pv.params.get(f.params[0].get("local"))
+            own = pv.params.get(f.params[_node_param(f) or 0].get("local"))
             # the arguments that describe the *implementing* type are all but the definitions map, the looked-up interface and the
             # diagnostics sink (roles by the callee's parameter types); they may be separate components or one context value
             cvi = P.fns.get(call_name(c))
@@ -474,7 +532,7 @@ def _r05d_cover(P, R):
 
 def _r05d_follow(P, R):
     # directive recursion search follows directives on every nested element of an argument's type
-    d = P.fn(CK + "type_system_checker::check_directive_recursion::directives_in_type")
+    d = _type_walk(P)
     pv = Prov(d)
     nested = {"Scalar": [("ScalarTypeDefinition", "directives")], "Union": [("UnionTypeDefinition", "directives")],
               "Object": [("ObjectTypeDefinition", "directives"), ("ObjectTypeDefinition", "fields"), ("FieldDefinition", "directives")],
@@ -494,13 +552,33 @@ def _r05d_follow(P, R):
                     % (["%s.%s" % w for w in missing], v), loc=d.loc())
 
 
-def _r05d_edges(P, R):
+def _recursion_fns(P):
     cr = P.fn(CK + "type_system_checker::check_directive_recursion::check_directive_recursion")
-    pvr = Prov(cr)
-    a = pvr.deep_atoms(cr.body)
-    ok = has_field(a, TS + "InputValueDefinition", "directives") and has_field(a, TS + "InputValueDefinition", "type") and has_call(a, "directives_in_type")
+    return cr, [P.fns[p] for p in sorted(P.reachable([cr])) if P.fns[p].crate == CHK and not P.fns[p].derived]
+
+
+def _type_walk(P):
+    """the function of the directive-recursion search that walks a type definition: reachable from check_directive_recursion,
+    with a match over TypeDefinition (reference-tree name: directives_in_type)"""
+    cr, fns = _recursion_fns(P)
+    cands = [g for g in fns if matches_on(g, "type_system::TypeDefinition")]
+    if len(cands) == 1:
+        return cands[0]
+    return P.fn(CK + "type_system_checker::check_directive_recursion::directives_in_type")
+
+
+def _r05d_edges(P, R):
+    # non-interference form: what the functions reachable from check_directive_recursion read
+    cr, fns = _recursion_fns(P)
+    reads = set()
+    for g in fns:
+        reads |= field_reads(g)
+    walk = _type_walk(P)
+    missing = [w for w in ("directives", "type") if (TS + "InputValueDefinition", w) not in reads]
+    ok = not missing and walk.path in {g.path for g in fns}
     R.check("R05-d", "recursion-edges", ok, "edges: argument directives and directives in the argument's type",
-            "check_directive_recursion does not follow both the argument's own directives and its type's directives", loc=cr.loc())
+            "check_directive_recursion does not follow both the argument's own directives and its type's directives "
+            "(no function it reaches reads InputValueDefinition.%s)" % (missing or "type through the type walk"), loc=cr.loc())
 
 
 def _r05d_every(P, R):
@@ -581,7 +659,8 @@ def _r05d_every(P, R):
     ei = inlined(P, e, pred=_positions(P)["pred"])
     pv = Prov(ei)
     loops = [m for m in ei.walk() if m.get("k") == "Match" and m.get("src") == "ForLoopDesugar" and (call_name(m["scrut"]) or "").endswith("IntoIterator::into_iter")
-             and has_field(pv.atoms(m["scrut"]), TS + "TypeSystemDocument", "definitions")]
+             and has_field(pv.atoms(m["scrut"]), TS + "TypeSystemDocument", "definitions")
+             and re.search(r"type_system::TypeSystemDefinition\b", norm(m["scrut"].get("t", "")) or "")]
     if not loops:
         R.undecided("R05-d", "every-definition", "no `for` loop over `TypeSystemDocument.definitions` on the path from %s" % e.path, loc=e.loc())
     for m in loops:
@@ -631,13 +710,15 @@ def _r05e_live(P, R):
             R.undecided("R05-e", "live@" + POSITIONS[posn], "kind=anchor-missing: %s" % e)
             per_pos = None
             continue
-        got = {}
+        got, view = {}, {}
         for g in reg:
             for v in diag_sites(g.walk()):
                 got[v] = got.get(v, 0) + 1
+        for v in diag_sites(position_inlined(P, posn).walk()):
+            view[v] = view.get(v, 0) + 1
         for v, need in sorted(table.items()):
             if per_pos is not None:
-                per_pos[v] = per_pos.get(v, 0) + got.get(v, 0)
+                per_pos[v] = per_pos.get(v, 0) + max(got.get(v, 0), view.get(v, 0))
             f = position_fn(P, posn)
             R.check("R05-e", "live:%s@%s" % (v, POSITIONS[posn]), got.get(v, 0) >= 1,
                     "%d construction site(s) on the path from %s" % (got.get(v, 0), short(f.path)),
@@ -660,14 +741,24 @@ def _r05e_live(P, R):
 
 
 def _reserved_fn(P):
+    """the reserved-name test, by role: the checker function over an `&Ident` that compares against the literal `__` (a predicate
+    returning bool, or a method that reports by itself); reference-tree name as the first guess"""
     f = P.fn(CK + "type_system_checker::name_starts_with_unscounsco", required=False)
     if f is not None:
         return f
-    cands = [P.fns[p] for p in scope(P) if P.fns[p].crate == CHK and [peel_ty(x) for x in P.fns[p].sig_inputs] == ["nitrogql_ast::base::Ident"]
-             and P.fns[p].sig_output == "bool"]
+    cands = []
+    for p in scope(P):
+        g = P.fns[p]
+        if g.crate != CHK or g.kind not in ("Fn", "AssocFn"):
+            continue
+        i = _node_param(g)
+        if i is None or peel_ty(g.sig_inputs[i]) != "nitrogql_ast::base::Ident":
+            continue
+        if any(x.get("k") == "Lit" and x.get("v") == "__" for x in g.walk()):
+            cands.append(g)
     if len(cands) == 1:
         return cands[0]
-    raise AnchorMissing("the reserved-name predicate fn(&Ident) -> bool was not identified")
+    raise AnchorMissing("the reserved-name test (a function over &Ident comparing with `__`) was not identified")
 
 
 def _r05e_reserved(P, R):
@@ -682,12 +773,12 @@ def _r05e_reserved(P, R):
             continue
         seen, opaque = set(), 0
         for g in reg:
-            calls = [c for c in g.walk() if c.get("k") == "Call" and call_name(c) == un.path and c["args"]]
+            calls = [c for c in g.walk() if c.get("k") in ("Call", "MethodCall") and call_name(c) == un.path and c["args"]]
             if not calls:
                 continue
             pv = Prov(g)
             for c in calls:
-                flds = {x[1].replace(TS, "") for x in pv.atoms(c["args"][0]) if x[0] == "field" and x[2] == "name" and x[1].startswith(TS)}
+                flds = {x[1].replace(TS, "") for a_ in c["args"] for x in pv.atoms(a_) if x[0] == "field" and x[2] == "name" and x[1].startswith(TS)}
                 seen |= flds
                 if not flds:
                     opaque += 1
@@ -803,15 +894,25 @@ def _r05f_impl(P, R):
 def _r05f_union(P, R):
     # union members must be objects: the test on the member's definition names Object and nothing else (match / matches! / if let)
     f = position_inlined(P, "UnionTypeDefinition")
-    def is_td(e):
-        return peel_ty((e or {}).get("t")).split("<")[0].endswith("type_system::TypeDefinition")
+    TD = TS + "TypeDefinition"
+
+    def mentions_td(e):
+        return re.search(r"type_system::TypeDefinition\b", norm((e or {}).get("t") or "") or "") is not None
+
+    def td_variants(pat):
+        return {norm(x.get("ctor_of") or x.get("def") or "").split("::")[-1] for x in subnodes(pat)
+                if x.get("k") in ("TupleStruct", "Struct", "PatExpr") and norm(x.get("adt") or x.get("pat_adt") or "") == TD}
     kinds = []
     for m in f.walk():
         k = m.get("k")
-        if k == "Match" and not str(m.get("src", "")).startswith(("ForLoop", "TryDesugar")) and is_td(m["scrut"]):
-            kinds.append(arm_variants(m)[0])
-        elif (k == "LetExpr" or (k == "Let" and "els" in m)) and is_td(m.get("init")):
-            kinds.append(arm_variants({"arms": [{"pat": m["pat"]}]})[0])
+        v = set()
+        if k == "Match" and not str(m.get("src", "")).startswith(("ForLoop", "TryDesugar")) and mentions_td(m["scrut"]):
+            for arm in m["arms"]:
+                v |= td_variants(arm["pat"])
+        elif (k == "LetExpr" or (k == "Let" and "els" in m)) and mentions_td(m.get("init")):
+            v = td_variants(m["pat"])
+        if v:
+            kinds.append(v)
     if not kinds:
         R.undecided("R05-f", "union-member-kind", "no test of a member's TypeDefinition kind on the path from %s" % f.path, loc=f.loc())
         return
